@@ -224,7 +224,7 @@ def _c17(tier):
         'runs': [('fault', {'max_points': 40 if q else 120,
                             'variant': 'big'}, 6 if q else 60),
                  ('fault', {'max_points': 45 if q else None,
-                            'pairs': 0 if q else 12}, 420 if q else 3600),
+                            'pairs': 3 if q else 12}, 420 if q else 3600),
                  ('fault', {'max_points': 45 if q else None,
                             'variant': 'tree'}, 70 if q else 600),
                  ('sync_fault', {'pairs': 0 if q else 1}, 32 if q else 300)],
